@@ -423,6 +423,11 @@ def balanced_lloyd_cluster(G, centers, maxiter=5, rebalance_iters=5, tiebreaking
         if num_clusters < 2:
             break
 
+        # don't rebalance if nothing was clustered (maxiter < 1): the
+        # cluster work arrays are filled by center_nodes only
+        if it == 0:
+            break
+
         # calculate distances
         dist_all.fill(np.inf)
         for a in range(num_clusters):
@@ -685,6 +690,9 @@ def breadth_first_search(G, seed):
     G = asgraph(G)
     N = G.shape[0]
 
+    if not 0 <= int(seed) < N:
+        raise ValueError(f'seed must be a vertex of the graph, got {seed}')
+
     order = np.empty(N, G.indptr.dtype)
     level = np.empty(N, G.indptr.dtype)
     level[:] = -1
@@ -779,6 +787,9 @@ def symmetric_rcm(A):
     >>> # plt.spy(symmetric_rcm(S),marker='.')
 
     """
+    if A.shape[0] == 0:
+        return A
+
     _dummy_root, order, level = pseudo_peripheral_node(A)
 
     # the traversal only reaches the component of its root: keep the reached
